@@ -3181,6 +3181,8 @@ class Set(Collection):
     def db_reverse_remove(attr, objects, item):
         for obj in objects:
             setdata = obj._vals_[attr]
+            if setdata.is_fully_loaded and not attr.is_volatile: throw(UnrepeatableReadError,
+                'Phantom object %s disappeared from collection %s.%s' % (safe_repr(item), safe_repr(obj), attr.name))
             setdata.remove(item)
     def get_m2m_columns(attr, is_reverse=False):
         reverse = attr.reverse
